@@ -266,8 +266,13 @@ def same_tick_scenarios(rep, prog, ix, Eu):
             mext = st.canon(mem.load_scalar(st, a, C(M.field_off('extra')), ix.parse_type('void *')))
             ms = st.objs[mext[1]]
             ms.cells.clear()
-            ms.default = 'zero'
-            ms.zeroed_n = ms.size
+            if scen == 'cleared':
+                # whatever else is pending in the mapping block (a Charge count, an armed or due charge timer): the due
+                # inactivity deadline must end the session in this very tick
+                ms.default = 'sym'
+            else:
+                ms.default = 'zero'
+                ms.zeroed_n = ms.size
             ms.cells[((), mrec.field('inactive_timeout_ts')[1])] = (8, C(1) if scen == 'cleared' else ZERO)
 
             def setup(I, st2):
